@@ -419,9 +419,14 @@ def run_check(chk, tier, seed, replay=None):
         nonlocal evals
         cases = list(cases)
         impl_obs = []
+        hangs = 0
         for c in cases:
             limit = chk.case_timeout(c)
             try:
+                if hangs >= 3:
+                    # the implementation wedges case after case: stop driving it, the hangs already recorded are the finding
+                    impl_obs.append({'skipped_after_hangs': True})
+                    continue
                 if limit:
                     # cases that drive real threads / sockets run under a watchdog: a wedged implementation must become a finding,
                     # not a check that never ends
@@ -438,6 +443,7 @@ def run_check(chk, tier, seed, replay=None):
                     th.start()
                     th.join(limit)
                     if th.is_alive():
+                        hangs += 1
                         impl_obs.append({'case_hangs': limit})
                     elif 'e' in box:
                         if isinstance(box['e'], Infra):
@@ -466,6 +472,8 @@ def run_check(chk, tier, seed, replay=None):
             except Infra as e:
                 infra_notes.append('driver: %s' % e)
         for c, io, mo in zip(cases, impl_obs, model):
+            if isinstance(io, dict) and io.get('skipped_after_hangs'):
+                continue
             evals += 1
             if isinstance(io, dict) and 'case_hangs' in io:
                 violations.append(Failure('oracle', pid + ':implementation-hangs', 'the implementation did not finish this case within %ss (a call or the session is wedged)' % io['case_hangs'], c, io))
